@@ -119,6 +119,8 @@ threadvar resourcestring exports contains requires asm
 ; : := = <> < > <= >= + - * / ( ) [ ] . .. , ^ @
 Foo Bar A B x 1 2.5 $FF 'str' #13 &begin
 //c\n {c} (*c*) {$IFDEF A} {$ELSE} {$ENDIF} {$IF X} {$ELSEIF Y} {$IFEND} {$R *.res} {$I f.inc}
+#65 #$41 #%0100 #$ 'a'#13#10'b' %1010 1e+5 1. 1.5e-3 $ &Foo Foo<string[10]> (*$IFDEF A*) (*$ENDIF*) (*$R+*) {$IFOPT R+} {$R+,Q-} {$I+} {$M 16384,1048576}
+resident external 'lib.dll' delayed dispinterface on E: 0FFh "dq" 'un
 """.split()
 ALPHABET = [a.replace("\\n", "\n") for a in ALPHABET]
 
@@ -232,7 +234,8 @@ class GrammarGen:
         r = self.rng
         c = r.random()
         if d > 2 or c < 0.3:
-            return r.choice([self.ident(), str(r.randrange(1000)), "'s%d'" % r.randrange(100), "nil", "True", "$%X" % r.randrange(65536), "1.5e3", "#13#10"])
+            return r.choice([self.ident(), str(r.randrange(1000)), "'s%d'" % r.randrange(100), "nil", "True", "$%X" % r.randrange(65536), "1.5e3", "#13#10",
+                             "%1010", "#$41", "'a'#13#10'b'", "#%0100#65", "1e+5", "TList<string[10]>.Create", "TMap<string[1 shl 3], Integer>.Create", "&begin", "'it''s'"])
         if c < 0.55:
             return self.expr(d + 1) + " " + r.choice(["+", "-", "*", "/", "div", "mod", "and", "or", "xor", "shl", "=", "<>", "<", ">", "<=", ">=", "in", "is", "as"]) + " " + self.expr(d + 1)
         if c < 0.7:
@@ -722,7 +725,7 @@ def codepoint_sweep(rng=None, frac=1.0, wellformed_only=False):
     return out
 
 
-ASM_INSTR = ["mov eax, 1", "ret", "xor eax, eax", "push ebx", "pop ebx", "@@loop: dec ecx", "jnz @@loop", "mov [edx + 4], al", "db $90, $90", "call System.@LStrClr", "lea eax, [ebp - 8]"]
+ASM_INSTR = ["db 'abc', 0", 'db "x", 13, 10', "mov al, 'a'", "and eax, 0FFh", "or al, 101b", "mov eax, %101", "mov eax, 1", "ret", "xor eax, eax", "push ebx", "pop ebx", "@@loop: dec ecx", "jnz @@loop", "mov [edx + 4], al", "db $90, $90", "call System.@LStrClr", "lea eax, [ebp - 8]"]
 
 
 def asm_pair(rng):
